@@ -127,3 +127,7 @@ impl Runtime {
         }
     }
 }
+
+#[cfg(kani)]
+#[path = "/verif/kani/runtime.rs"]
+mod kani_verif;
